@@ -932,6 +932,17 @@ def micro_cases(I, r, n, out):
         out.append((c, ['capadd\t%s\t%s\t%s' % (kind, encL(',', before), wire.enc(x))],
                     lambda o: o[0].split('\t')[0] + '\t' + encL(',', sorted(decL(',', o[0].split('\t')[1])))))
 
+        # ircutils.hostmaskPatternsIntersect (the clash test of setUser between two accounts' hostmasks)
+        alpha = ['a', 'b', 'A', '*', '*', '?', '!', '@', '[', '{', ']', '}', '|', '\\', '^', '~', '.', '1', 'Z', 'z']
+        p1 = ''.join(r.choice(alpha) for _ in range(r.randint(0, 7)))
+        if r.random() < 0.5:       # a near copy: most random pairs do not intersect
+            q1 = ''.join(r.choice([ch, ch, ch, '*', '?', ch.swapcase()]) if r.random() < 0.8 else '' for ch in p1)
+        else:
+            q1 = ''.join(r.choice(alpha) for _ in range(r.randint(0, 7)))
+        got = bool(I.ircutils.hostmaskPatternsIntersect(p1, q1))
+        c = Case({'op': 'hx', 'p': p1, 'q': q1}, impl='1' if got else '0', kind='micro', tags=('hx-%d' % got,))
+        out.append((c, ['hx\t%s\t%s' % (wire.enc(p1), wire.enc(q1))], lambda o: o[0]))
+
 # ---------------------------------------------------------------------------------------------
 # saving over an existing file: a second flush (possibly of an emptied database), and a flush that
 # fails part-way (the saved file must stay the old or become the complete new one)
